@@ -34,12 +34,15 @@ func genC03(seed uint64, tier string) *Case {
 			c.Steps = append(c.Steps, Step{Op: "adv", D: int64(g.Pick(100, 1000, 16000)) * int64(time.Millisecond)})
 		case x < 10:
 			if wAdopt > 0 {
-				c.Steps = append(c.Steps, Step{Op: "adopt", S: c03Times[g.Intn(len(c03Times)-3)]})
+				// a peer's push/pull state holding the local node alive at a status time it
+				// learned from the node's own join intents (never newer than those: a peer
+				// holding it as leaving lists it on the left list, which is the "pp" claim)
+				c.Steps = append(c.Steps, Step{Op: "adopt", S: c03Times[g.Intn(2)]})
 			}
 		case x < 11:
 			c.Steps = append(c.Steps, Step{Op: "gossip-peer"})
 		default:
-			c.Steps = append(c.Steps, Step{Op: "staleself", S: c03Times[g.Intn(3)]})
+			c.Steps = append(c.Steps, Step{Op: "staleself", S: c03Times[g.Intn(2)]})
 		}
 	}
 	// the 64-bit edge ends the history: anything witnessed afterwards would take
